@@ -84,7 +84,8 @@ ASSUMPTIONS = [
     '$PATH (succeeding or failing); when qstat succeeds the chunk size '
     '(ncpus) is what was allocated, whatever cores_per_node the platform '
     'config carries',
-    'cfg.nodes >= 1 (the launcher always sets it); GPU environment variables '
+    'cfg.nodes >= 1, or 0 when the config carries no cores_per_node (the '
+    'launcher then sizes in usable cores only); GPU environment variables '
     'of Slurm agree with each other',
     'a resource manager which refuses to start (raises) offers no list; that '
     'is accepted when the allocation is smaller than requested or no compute '
@@ -516,6 +517,12 @@ def gen_case(rng, idx):
            'lfs_size_per_node': rng.choice([0, 0, 512]),
            'lfs_path_per_node': '/tmp',
            'agents'           : agents}
+    if not cfg_cpn and rng.random() < 0.5:
+        # the platform config knows no node size: the launcher could only size
+        # the pilot in cores (usable ones) and tells the agent no node count;
+        # the resource manager derives it from the node size it detects
+        cfg['nodes'] = 0
+        feat.add('nodes-derived-by-rm')
     if not agents and rng.random() < 0.5:
         del cfg['agents']
     rcfg['cores_per_node'] = cfg_cpn
